@@ -8,3 +8,6 @@ import PhyloModel.Props.C13
 #print axioms C13.indexed_iter_spec
 #print axioms C13.to_map_spec
 #print axioms C13.extremum_spec
+#print axioms C13.label_position
+#print axioms C13.relabel
+#print axioms C13.relabel_refused
